@@ -350,6 +350,11 @@ func TestWorker(t *testing.T) {
 			}
 			if r.Plan.Ops != nil {
 				full.Ops = r.Plan.Ops
+				if r.Plan.Seed != 0 {
+					// an explicit trace replays under the seed it ran under
+					// (a continuation after a crash runs under a derived one)
+					full.Seed = r.Plan.Seed
+				}
 			}
 			if r.Plan.Con != nil {
 				full.Ops = nil
